@@ -9,3 +9,9 @@ From GI Require Import Gen.TsParseConsts TsParse.TsShape.
 Theorem source_shapes_current :
   ts_parse_shape = parse_go_shape /\ ts_expand_shape = expand_shape /\ ts_cmp_shape = cmp_shape.
 Proof. vm_compute. repeat split. Qed.
+
+(* the same for the script level: the line loop of run, cmdEnv, Setenv, Getenv, setEnv *)
+Theorem script_shapes_current :
+  ts_runloop_shape = runloop_shape /\ ts_cmdenv_shape = cmdenv_shape /\ ts_setenv_shape = setenv_shape /\
+  ts_getenv_shape = getenv_shape /\ ts_setenvall_shape = setenvall_shape.
+Proof. vm_compute. repeat split. Qed.
